@@ -54,6 +54,9 @@ type c06Case struct {
 	NF bool `json:"nf,omitempty"`
 	// the underlying writer implements http.Hijacker (counts the call, returns a sentinel error)
 	HJ bool `json:"hj,omitempty"`
+	// the underlying writer also implements io.StringWriter and FlushError() error (so it can
+	// flush even without a Flush method: NF is then without effect)
+	X bool `json:"x,omitempty"`
 	// request URL /?pretty (indent branches of JSON / JSONP / XML)
 	Pretty bool `json:"pretty,omitempty"`
 	// the underlying writer REFUSES status codes outside 100..999 the way net/http's connection
@@ -109,6 +112,14 @@ type c06mF struct{ w *c06Writer }
 type c06mR struct{ w *c06Writer }
 type c06mH struct{ w *c06Writer }
 
+// the two further optional interfaces net/http's connection writer offers: io.StringWriter
+// (probed by io.WriteString, and through it by strings.Reader.WriteTo inside io.Copy) and the
+// FlushError convention (preferred over Flush by http.ResponseController)
+type c06mX struct{ w *c06Writer }
+
+func (m c06mX) WriteString(s string) (int, error) { return m.w.Write([]byte(s)) }
+func (m c06mX) FlushError() error                 { m.w.flush(); return nil }
+
 func (m c06mF) Flush()                                { m.w.flush() }
 func (m c06mR) ReadFrom(src io.Reader) (int64, error) { return m.w.readFrom(src) }
 func (m c06mH) Hijack() (net.Conn, *bufio.ReadWriter, error) {
@@ -119,9 +130,20 @@ func (m c06mH) Hijack() (net.Conn, *bufio.ReadWriter, error) {
 var errC06Hijack = errors.New("recording writer: no connection to hand out")
 
 // c06Under wraps the recording core into a writer with exactly the requested optional interfaces
-func c06Under(w *c06Writer, fl, rf, hj bool) http.ResponseWriter {
-	f, r, h := c06mF{w}, c06mR{w}, c06mH{w}
+// (x = io.StringWriter + FlushError, like net/http's connection writer has); all 16 combinations
+// are distinct dynamic types (generated)
+func c06Under(w *c06Writer, fl, rf, hj, x bool) http.ResponseWriter {
+	f, r, h, xx := c06mF{w}, c06mR{w}, c06mH{w}, c06mX{w}
+	_, _, _, _ = f, r, h, xx
 	switch {
+	case fl && rf && hj && x:
+		return struct {
+			*c06Writer
+			c06mF
+			c06mR
+			c06mH
+			c06mX
+		}{w, f, r, h, xx}
 	case fl && rf && hj:
 		return struct {
 			*c06Writer
@@ -129,6 +151,27 @@ func c06Under(w *c06Writer, fl, rf, hj bool) http.ResponseWriter {
 			c06mR
 			c06mH
 		}{w, f, r, h}
+	case fl && rf && x:
+		return struct {
+			*c06Writer
+			c06mF
+			c06mR
+			c06mX
+		}{w, f, r, xx}
+	case fl && hj && x:
+		return struct {
+			*c06Writer
+			c06mF
+			c06mH
+			c06mX
+		}{w, f, h, xx}
+	case rf && hj && x:
+		return struct {
+			*c06Writer
+			c06mR
+			c06mH
+			c06mX
+		}{w, r, h, xx}
 	case fl && rf:
 		return struct {
 			*c06Writer
@@ -141,12 +184,30 @@ func c06Under(w *c06Writer, fl, rf, hj bool) http.ResponseWriter {
 			c06mF
 			c06mH
 		}{w, f, h}
+	case fl && x:
+		return struct {
+			*c06Writer
+			c06mF
+			c06mX
+		}{w, f, xx}
 	case rf && hj:
 		return struct {
 			*c06Writer
 			c06mR
 			c06mH
 		}{w, r, h}
+	case rf && x:
+		return struct {
+			*c06Writer
+			c06mR
+			c06mX
+		}{w, r, xx}
+	case hj && x:
+		return struct {
+			*c06Writer
+			c06mH
+			c06mX
+		}{w, h, xx}
 	case fl:
 		return struct {
 			*c06Writer
@@ -162,6 +223,11 @@ func c06Under(w *c06Writer, fl, rf, hj bool) http.ResponseWriter {
 			*c06Writer
 			c06mH
 		}{w, h}
+	case x:
+		return struct {
+			*c06Writer
+			c06mX
+		}{w, xx}
 	}
 	return w
 }
@@ -367,6 +433,9 @@ func c06IsFile(k string) bool { return k == "file" || k == "filefs" || k == "att
 
 func c06FileFound(o c06Op) bool { return !o.Bad && o.Mode != 2 && o.Mode != 3 }
 
+// can the underlying writer be flushed at all (by http.ResponseController)?
+func c06NoFlush(c *c06Case) bool { return c.NF && !c.X }
+
 func c06IsFlush(k string) bool { return k == "fl" || k == "rcfl" || k == "fefl" }
 
 func c06ModelOp(o c06Op) string {
@@ -406,6 +475,13 @@ func c06ModelOp(o c06Op) string {
 		return "14"
 	case "unwrap":
 		return "15"
+	case "wstr":
+		// io.WriteString(resp, s): echo.Response has no WriteString, so it is Response.Write (C06_writeString_is_write)
+		return wJoin("22", wInt(o.N))
+	case "copywt":
+		// io.Copy from a source WITH WriteTo (strings.Reader: one io.WriteString of everything,
+		// nothing for an empty source): for the Response one Write
+		return wJoin("23", wInt(o.N))
 	case "copy":
 		p := []string{"16", wInt(len(o.Chunks))}
 		for _, c := range o.Chunks {
@@ -452,7 +528,7 @@ func c06CarriesStatus(o c06Op) bool {
 // from Response.Status): 0 = none.
 func c06ExpectedFirstStatus(o c06Op, pending int) (int, bool) {
 	switch o.K {
-	case "w", "fl", "rcfl", "fefl", "copy":
+	case "w", "fl", "rcfl", "fefl", "copy", "wstr", "copywt":
 		// (a copy of an empty source need not send anything; IF it sends, then the pending status)
 		if pending == 0 {
 			return 200, true
@@ -680,6 +756,13 @@ func c06Exec(env *c06Env, ctx echo.Context, o c06Op, onBefore, onAfter func(h in
 		if r.Unwrap() != r.Writer {
 			err = errC06Unwrap
 		}
+	case "wstr":
+		// probes the Response for io.StringWriter
+		retN, err = io.WriteString(r, strings.Repeat("x", o.N))
+	case "copywt":
+		// a source WITH WriteTo: io.Copy hands the Response to strings.Reader.WriteTo, which
+		// probes it for io.StringWriter
+		_, err = io.Copy(r, strings.NewReader(strings.Repeat("x", o.N)))
 	case "copy":
 		// a source without WriteTo: io.Copy looks for io.ReaderFrom on the destination
 		_, err = io.Copy(r, &c06Reader{chunks: append([]int(nil), o.Chunks...), rerr: o.RErr})
@@ -936,7 +1019,7 @@ func c06Run(ci any) (res Result) {
 					fail(i, "a refusing writer recorded a WriteHeader call it refused")
 				}
 			} else if panicked != nil {
-				if c.NF && c06IsFlush(o.K) {
+				if c06NoFlush(c) && c06IsFlush(o.K) {
 					// Response.Flush on a writer that cannot flush panics by design — but only
 					// after it has committed: the clauses below must hold in the state it left
 					tags["flush-panics-on-nonflusher"] = true
@@ -947,7 +1030,7 @@ func c06Run(ci any) (res Result) {
 					fail(i, fmt.Sprintf("panic: %v", panicked))
 				}
 			}
-			if mustRefuse && !refused && !w.out && o.K != "copy" && panicked == nil {
+			if mustRefuse && !refused && !w.out && o.K != "copy" && o.K != "copywt" && panicked == nil {
 				fail(i, fmt.Sprintf("status %d was neither sent nor refused by the writer", refusedCode))
 			}
 			if rq.hookMsg != "" {
@@ -1009,7 +1092,7 @@ func c06Run(ci any) (res Result) {
 			if o.K == "unwrap" && err != nil {
 				fail(i, "Response.Unwrap() does not return the wrapped writer")
 			}
-			if (o.K == "rcfl" || o.K == "fefl") && err != nil && !c.NF && !refused {
+			if (o.K == "rcfl" || o.K == "fefl") && err != nil && !c06NoFlush(c) && !refused {
 				fail(i, fmt.Sprintf("flushing through the optional interfaces failed although the underlying writer can flush: %v", err))
 			}
 			if o.K == "hijack" {
@@ -1026,7 +1109,7 @@ func c06Run(ci any) (res Result) {
 					fail(i, fmt.Sprintf("Hijack on a writer without http.Hijacker returned %v, not http.ErrNotSupported", err))
 				}
 			}
-			if o.K == "w" && !refused {
+			if (o.K == "w" || o.K == "wstr") && !refused {
 				if retN != w.body-prevBody || (err != nil) != (retN < o.N) {
 					fail(i, fmt.Sprintf("Write(%d bytes) returned (%d, err=%v) but the writer accepted %d", o.N, retN, err != nil, w.body-prevBody))
 				}
@@ -1068,7 +1151,7 @@ func c06Run(ci any) (res Result) {
 		}
 		reqs[i] = rq
 		lg.trace, lg.n = &rq.trace, 0
-		return c06Under(rq.w, !c.NF, c.RF, c.HJ)
+		return c06Under(rq.w, !c.NF, c.RF, c.HJ, c.X)
 	}
 	if c.Fresh {
 		tags["fresh-context"] = true
@@ -1136,7 +1219,7 @@ func c06Run(ci any) (res Result) {
 				}
 			}
 			switch o.K {
-			case "jsonpretty", "jsonpv", "xmlv", "xmlpretty", "render", "file", "filefs", "attach", "inline":
+			case "jsonpretty", "jsonpv", "xmlv", "xmlpretty", "render", "file", "filefs", "attach", "inline", "wstr", "copywt":
 				tags["op:"+o.K] = true
 			}
 		}
@@ -1149,8 +1232,11 @@ func c06Run(ci any) (res Result) {
 	if c.RF {
 		tags["underlying-writer-is-ReaderFrom"] = true
 	}
-	if c.NF {
+	if c06NoFlush(c) {
 		tags["underlying-writer-is-no-Flusher"] = true
+	}
+	if c.X {
+		tags["underlying-writer-is-StringWriter+FlushError"] = true
 	}
 	if c.HJ {
 		tags["underlying-writer-is-Hijacker"] = true
@@ -1200,7 +1286,7 @@ func c06Ops(c *c06Case) string {
 		cap = 1 << 30
 	}
 	progs := c06Programs(c)
-	parts := []string{wInt(p), wInt(cap), wBool(!c.NF), wBool(c06Strict(c)), wInt(len(progs))}
+	parts := []string{wInt(p), wInt(cap), wBool(!c06NoFlush(c)), wBool(c06Strict(c)), wInt(len(progs))}
 	for _, ops := range progs {
 		parts = append(parts, wInt(len(ops)))
 		for _, o := range ops {
